@@ -231,7 +231,11 @@ func TestKnownISNSoloHolder(t *testing.T) {
 // over admitted policies only, refusal is TestTassaAdmission's subject.
 func drawCase(t *rapid.T, test string, maxN int, o policy.Opts, fullUpTo, nSubsets int, regimes ...string) (*pcase, string) {
 	o.MaxN = maxN
-	p := policy.Draw(t, o)
+	return caseFor(t, test, policy.Draw(t, o), fullUpTo, nSubsets, regimes...)
+}
+
+// caseFor completes a drawn policy to a case (ID regime, IDs, field, subsets).
+func caseFor(t *rapid.T, test string, p *policy.Policy, fullUpTo, nSubsets int, regimes ...string) (*pcase, string) {
 	if len(regimes) == 0 {
 		regimes = []string{policy.Ordinal, policy.Sparse, policy.Large}
 	}
@@ -247,12 +251,231 @@ func drawCase(t *rapid.T, test string, maxN int, o policy.Opts, fullUpTo, nSubse
 		}
 	}
 	c := newCase(t, test, p, ids, regime, rapid.Uint64().Draw(t, "seed"))
-	if p.N <= fullUpTo {
+	switch {
+	case p.N <= fullUpTo:
 		c.allSubsets()
-	} else {
+	case p.N > 12:
+		c.subsets = walkSubsets(t, p, nSubsets) // no 2^N enumeration
+	default:
 		c.subsets = drawSubsets(t, p, nSubsets)
 	}
 	return c, field
+}
+
+// ---- low-weight tail of LARGER policies ---------------------------------------------------------------
+//
+// vlib/policy.Draw is bounded by MaxN (<= 7 in the quick tier), gate fan-in <= 4, <= 3 hierarchy
+// levels and <= 5 CNF clauses. The library imposes none of these limits (its own limits: IDs <= 64
+// for ISN and for MaximalUnqualifiedSetsIter of hierarchical / gate structures, top threshold + 1
+// <= 20 and Tassa's field-size bound for hierarchical structures). bigPolicy draws policies past
+// the small ranges: 9..17 holders (33 where the check body needs no 2^N enumeration), 1..5 levels,
+// gates with fan-in up to 9, up to 10 CNF clauses. The oracles are unchanged (policy.Qualified and
+// the reference algebra); only the subset selection avoids enumerating 2^N masks above 12 holders
+// (walkSubsets). readMSP / ISN still enumerate 2^N once per case (policy.RedundantHolders,
+// MaximalUnqualified), which is what caps KW, Feldman and Pedersen at 17 holders.
+
+var bigHolders = []int{9, 12, 13, 16, 17}
+
+// bigPolicy returns nil (the usual generator applies) except once in oneIn draws.
+func bigPolicy(t *rapid.T, oneIn int, fams []string, sizes []int, hierKMax int, allowSolo bool) *policy.Policy {
+	if rapid.IntRange(1, oneIn).Draw(t, "big?") != oneIn {
+		return nil
+	}
+	fam := rapid.SampledFrom(fams).Draw(t, "bigFamily")
+	n := rapid.SampledFrom(sizes).Draw(t, "bigN")
+	switch fam {
+	case policy.Threshold:
+		T := rapid.SampledFrom([]int{2, 3, n / 2, n/2 + 1, n - 1, n}).Draw(t, "bigT")
+		return &policy.Policy{Family: policy.Threshold, N: n, T: T}
+	case policy.Unanimity:
+		return &policy.Policy{Family: policy.Unanimity, N: n}
+	case policy.Hier:
+		return bigHier(t, n, hierKMax)
+	case policy.CNF:
+		return bigCNF(t, min(n, 12))
+	case policy.Gate:
+		return bigGate(t, n, allowSolo)
+	}
+	panic("family")
+}
+
+// bigHier: n holders in 1..5 consecutive levels, strictly increasing cumulative thresholds, each
+// at most the cumulative member count and the last at most kMax (>= 5).
+func bigHier(t *rapid.T, n, kMax int) *policy.Policy {
+	nl := rapid.IntRange(1, min(5, n)).Draw(t, "bigLevels")
+	cuts := map[int]bool{}
+	for len(cuts) < nl-1 {
+		cuts[rapid.IntRange(1, n-1).Draw(t, fmt.Sprintf("bigCut%d", len(cuts)))] = true
+	}
+	var ends []int
+	for c := range cuts {
+		ends = append(ends, c)
+	}
+	sort.Ints(ends)
+	ends = append(ends, n)
+	var levels []policy.Level
+	start, prevT := 0, 0
+	for li, end := range ends {
+		var mem []int
+		for i := start; i < end; i++ {
+			mem = append(mem, i)
+		}
+		remaining := len(ends) - 1 - li
+		lo, hi := prevT+1, min(end, kMax)-remaining
+		if nl == 1 {
+			lo = 2 // (1; all) makes every singleton qualified: refused by design
+		}
+		if hi < lo {
+			hi = lo
+		}
+		// mostly an end of the admissible range: the top threshold then sits at n or kMax
+		T := rapid.OneOf(rapid.IntRange(lo, hi), rapid.SampledFrom([]int{lo, hi, hi})).Draw(t, fmt.Sprintf("bigT%d", li))
+		levels = append(levels, policy.Level{T: T, Members: mem})
+		prevT, start = T, end
+	}
+	return &policy.Policy{Family: policy.Hier, N: n, Levels: levels}
+}
+
+func maximalSets(sets []uint64) []uint64 {
+	var out []uint64
+	for i, s := range sets {
+		keep := true
+		for j, u := range sets {
+			if i != j && s&^u == 0 && (s != u || j < i) {
+				keep = false
+				break
+			}
+		}
+		if keep {
+			out = append(out, s)
+		}
+	}
+	sort.Slice(out, func(i, j int) bool { return out[i] < out[j] })
+	return out
+}
+
+// bigCNF: 6..10 drawn unqualified sets over n <= 12 holders, completed and cleaned like
+// policy.Draw does (every holder in some set, no holder in every set).
+func bigCNF(t *rapid.T, n int) *policy.Policy {
+	full := (uint64(1) << uint(n)) - 1
+	k := rapid.IntRange(6, 10).Draw(t, "bigClauses")
+	var sets []uint64
+	for i := 0; i < k; i++ {
+		sets = append(sets, rapid.Uint64Range(1, full-1).Draw(t, fmt.Sprintf("bigMus%d", i)))
+	}
+	var union uint64
+	for _, s := range sets {
+		union |= s
+	}
+	for i := 0; i < n; i++ {
+		if union&(1<<uint(i)) == 0 {
+			sets = append(sets, 1<<uint(i))
+		}
+	}
+	return policy.DropRedundantCNF(&policy.Policy{Family: policy.CNF, N: n, MUS: maximalSets(sets)})
+}
+
+// bigGate: a root gate with 5..9 children, each a leaf or a gate with 2..6 leaf children (one of
+// them possibly a further gate): fan-in and leaf counts above policy.Draw's 2..4.
+func bigGate(t *rapid.T, n int, allowSolo bool) *policy.Policy {
+	var gate func(name string, lo, hi, depth int) *policy.Node
+	gate = func(name string, lo, hi, depth int) *policy.Node {
+		k := rapid.IntRange(lo, hi).Draw(t, name+".k")
+		node := &policy.Node{Leaf: -1}
+		used := map[int]bool{}
+		for i := 0; i < k; i++ {
+			if depth > 0 && rapid.IntRange(0, 3).Draw(t, fmt.Sprintf("%s.%d.gate?", name, i)) == 0 {
+				node.Children = append(node.Children, gate(fmt.Sprintf("%s.%d", name, i), 2, 6, depth-1))
+				continue
+			}
+			l := rapid.IntRange(0, n-1).Draw(t, fmt.Sprintf("%s.%d.leaf", name, i))
+			if used[l] { // the library forbids a repeated attribute under one gate
+				continue
+			}
+			used[l] = true
+			node.Children = append(node.Children, &policy.Node{Leaf: l})
+		}
+		node.T = rapid.IntRange(1, len(node.Children)).Draw(t, name+".T")
+		return node
+	}
+	var usedMask func(nd *policy.Node) uint64
+	usedMask = func(nd *policy.Node) uint64 {
+		if nd.Leaf >= 0 {
+			return 1 << uint(nd.Leaf)
+		}
+		var m uint64
+		for _, c := range nd.Children {
+			m |= usedMask(c)
+		}
+		return m
+	}
+	var relabel func(nd *policy.Node, m map[int]int)
+	relabel = func(nd *policy.Node, m map[int]int) {
+		if nd.Leaf >= 0 {
+			nd.Leaf = m[nd.Leaf]
+			return
+		}
+		for _, c := range nd.Children {
+			relabel(c, m)
+		}
+	}
+	for attempt := 0; attempt < 8; attempt++ {
+		root := gate(fmt.Sprintf("bg%d", attempt), 5, 9, 2)
+		remap := map[int]int{}
+		for _, i := range policy.Members(usedMask(root)) {
+			remap[i] = len(remap)
+		}
+		relabel(root, remap)
+		p := &policy.Policy{Family: policy.Gate, N: len(remap), Root: root}
+		if p.N >= 2 && !p.AllSingletonsQualified() && (allowSolo || !p.SingletonQualified()) {
+			return p
+		}
+	}
+	// fall back to one wide threshold gate over n distinct leaves
+	root := &policy.Node{Leaf: -1, T: rapid.IntRange(2, n).Draw(t, "bgT")}
+	for i := 0; i < n; i++ {
+		root.Children = append(root.Children, &policy.Node{Leaf: i})
+	}
+	return &policy.Policy{Family: policy.Gate, N: n, Root: root}
+}
+
+// walkSubsets selects subsets of a large holder set without enumerating 2^N masks: empty, full,
+// drawn masks, and for each drawn mask the minimal qualified set reached by removing holders (in
+// a drawn order) while the set stays qualified, resp. the maximal unqualified set reached by adding
+// holders while it stays unqualified, plus a one-off neighbour of each. Only policy.Qualified is used.
+func walkSubsets(t *rapid.T, p *policy.Policy, n int) []uint64 {
+	seen := map[uint64]bool{}
+	var out []uint64
+	add := func(s uint64) {
+		s &= p.Full()
+		if !seen[s] {
+			seen[s] = true
+			out = append(out, s)
+		}
+	}
+	add(0)
+	add(p.Full())
+	for tries := 0; len(out) < n && tries < 4*n; tries++ {
+		s := rapid.Uint64Range(0, p.Full()).Draw(t, "walkStart")
+		perm := rapid.Permutation(policy.Members(p.Full())).Draw(t, "walkOrder")
+		add(s)
+		if p.Qualified(s) {
+			for _, i := range perm {
+				if s&(1<<uint(i)) != 0 && p.Qualified(s&^(1<<uint(i))) {
+					s &^= 1 << uint(i)
+				}
+			}
+		} else {
+			for _, i := range perm {
+				if s&(1<<uint(i)) == 0 && !p.Qualified(s|1<<uint(i)) {
+					s |= 1 << uint(i)
+				}
+			}
+		}
+		add(s) // minimal qualified resp. maximal unqualified
+		add(s ^ 1<<uint(perm[0]))
+	}
+	return out
 }
 
 // drawSubsets: empty, full, up to 12 minimal qualified and 12 maximal unqualified sets (chosen by
@@ -298,7 +521,14 @@ func TestDrawn(t *testing.T) {
 	}
 	vlib.Check(t, 480, func(t *rapid.T) {
 		solo := rapid.IntRange(0, 4).Draw(t, "solo") == 0
-		c, field := drawCase(t, test, maxN, policy.Opts{MaxDepth: depth, AllowSolo: solo}, 6, 56)
+		var c *pcase
+		var field string
+		if p := bigPolicy(t, 12, []string{policy.Threshold, policy.Unanimity, policy.CNF, policy.Hier, policy.Gate}, bigHolders, 9, solo); p != nil {
+			c, field = caseFor(t, test, p, 6, 32)
+			vlib.Class(test, "generator=big-policy")
+		} else {
+			c, field = drawCase(t, test, maxN, policy.Opts{MaxDepth: depth, AllowSolo: solo}, 6, 56)
+		}
 		c.heavy = c.p.N <= 6
 		checkPolicy(t, c)
 		envs[field].KW(t, c)
@@ -311,7 +541,12 @@ func TestDrawn(t *testing.T) {
 func TestPrivacyWitness(t *testing.T) {
 	const test = "PrivacyWitness"
 	vlib.Check(t, 400, func(t *rapid.T) {
-		c, field := drawCase(t, test, 6, policy.Opts{MaxDepth: 2, AllowSolo: rapid.IntRange(0, 4).Draw(t, "solo") == 0}, 0, 0)
+		// up to 6 holders, one case in 12 up to 12 (the body enumerates all 2^N subsets once)
+		maxN := 6
+		if rapid.IntRange(1, 12).Draw(t, "moreHolders") == 12 {
+			maxN = 12
+		}
+		c, field := drawCase(t, test, maxN, policy.Opts{MaxDepth: 2, AllowSolo: rapid.IntRange(0, 4).Draw(t, "solo") == 0}, 0, 0)
 		// unqualified non-empty subsets in a drawn order; maximal unqualified sets first
 		var un []uint64
 		for _, s := range c.p.MaximalUnqualified() {
